@@ -150,6 +150,10 @@ def subject(case):
             f.write('<t:root xmlns:t="urn:t" xmlns:i="urn:i" xmlns:xsi="http://www.w3.org/2001/XMLSchema-instance" '
                     'xsi:schemaLocation="urn:i %s"><i:%s>v</i:%s></t:root>'
                     % (location.replace('inc.xsd', 'imp.xsd'), 'x', 'x'))
+    elif mech.startswith('copy-'):
+        # the reference is made later, through a copy of the schema's global maps
+        with open(main, 'w') as f:
+            f.write(main_schema('none', location, version))
     elif mech != 'main':
         with open(main, 'w') as f:
             f.write(main_schema(mech, location, version))
@@ -177,6 +181,13 @@ def subject(case):
                     res['hint_errors'] = len(list(schema.iter_errors(doc, use_location_hints=True)))
                 except Exception as e:  # noqa
                     res['hint_exc'] = common.exc_class(e)
+            elif mech.startswith('copy-'):
+                base = cls(main, allow=mode, base_url=os.path.join(root, 'sand'))
+                schema = base.maps.copy().validator
+                if mech == 'copy-include':
+                    schema.include_schema(location, base_url=os.path.join(root, 'sand'), build=True)
+                else:
+                    schema.import_schema('urn:i', location.replace('inc.xsd', 'imp.xsd'), base_url=os.path.join(root, 'sand'), build=True)
             elif mech.startswith('import2'):
                 from xmlschema import loaders
                 lc = {'import2-safe': loaders.SafeSchemaLoader, 'import2-location': loaders.LocationSchemaLoader,
@@ -520,7 +531,7 @@ def gen(ctx):
     cases = []
     modes = ['all', 'remote', 'local', 'sandbox', 'none']
     mechs = ['main', 'include', 'import', 'redefine', 'override', 'hint', 'hint-inner', 'mapper', 'mapper-dict',
-             'import2', 'import2-safe', 'import2-location']
+             'import2', 'import2-safe', 'import2-location', 'copy-include', 'copy-import']
     spells = ['relative', 'dotted', 'absolute', 'file-url', 'detour', 'double-slash', 'encoded-dots', 'encoded-dots-2',
               'encoded-dots-3', 'abs-detour', 'file-url-detour']
     for mode in modes:
